@@ -6,6 +6,10 @@ use fnv::{FnvHashMap, FnvHashSet};
 use crate::message::{new_cancel_entry, new_want_block_entry, new_want_have_entry};
 use crate::proto::message::mod_Message::Wantlist as ProtoWantlist;
 
+#[cfg(beetswap_verif)]
+#[path = "verif/wantlist.rs"]
+pub mod verif;
+
 #[derive(Debug)]
 pub(crate) struct Wantlist<const S: usize> {
     cids: FnvHashSet<CidGeneric<S>>,
